@@ -193,12 +193,12 @@ def run(rep, tier):
     cfgs = ["x86"] if tier == "quick" else ["x86", "x86-rayon", "arm", "wasm"]
     for cfg, prog in programs(cfgs):
         rep.set_cfg(cfg)
-        parametric(rep, prog, "C13.parametric")
-        typed_image_rows(rep, prog, "C13.view-offsets")
-        index_rules.cropped_row_slices(rep, prog, "C13.view-offsets-cropped")
-        dispatch_pure(rep, prog, "C13.dispatch-pure")
-        no_address_dependence(rep, prog, "C13.no-address-dependence")
-        loadwidth.guard_adequacy(rep, prog, "C13.row-end", loadwidth.FLOOR.get(cfg, 50))
+        rep.call(parametric, rep, prog, "C13.parametric")
+        rep.call(typed_image_rows, rep, prog, "C13.view-offsets")
+        rep.call(index_rules.cropped_row_slices, rep, prog, "C13.view-offsets-cropped")
+        rep.call(dispatch_pure, rep, prog, "C13.dispatch-pure")
+        rep.call(no_address_dependence, rep, prog, "C13.no-address-dependence")
+        rep.call(loadwidth.guard_adequacy, rep, prog, "C13.row-end", loadwidth.FLOOR.get(cfg, 50))
     if tier == "thorough":
         rep.set_cfg("witness")
-        witness.report(rep, "C13.types", ["W6"])
+        rep.call(witness.report, rep, "C13.types", ["W6"])
